@@ -271,11 +271,11 @@ let model_line line =
         let params = List.concat (List.init (List.length extras + 1) (fun i ->
             (if i = fpos then [(n typ, p)] else []) @
             (if i < List.length extras then [(n (List.nth extras i), false)] else []))) in
-        let (idx, p') = (match field_param (n typ) params (n 0) with
-            | Some (k, q) -> (int_of_nat k, q) | None -> (0, p)) in
+        let idx = (match field_param (n typ) params (n 0) with
+            | Some (k, _) -> int_of_nat k | None -> 0) in
         Hashtbl.replace act_params id (params, idx);
         { a_id = n id; a_kind = (match kind with 0 -> AByTag (n karg) | 1 -> AByName (n karg) | _ -> AByType);
-          a_type = n typ; a_ptr = p'; a_fillSet = fs; a_fill = fl }) in
+          a_params = params; a_fillSet = fs; a_fill = fl }) in
     let tid = ref 1000 in
     let rec shape () =
       if next () = 0 then FLeaf (n (next ()))
